@@ -309,8 +309,9 @@ class RF24:
     def read(self, length: Optional[int] = None) -> Optional[bytearray]:
         """This function is used to retrieve data from the RX FIFO."""
         return_size = length if length is not None else self.any()
-        if not return_size:
+        if not return_size and (length is not None or self._in[0] >> 1 & 7 > 5):
             return None
+        # an empty (zero-length) payload must still be taken out of the RX FIFO
         result = self._reg_read_bytes(0x61, return_size)
         self.clear_status_flags(True, False, False)
         return result
